@@ -3,7 +3,7 @@
 P="$1"; shift
 PROPS="$*"
 [ -z "$PROPS" ] && PROPS="$(/verif/bin/resverif -list | sort | tr '\n' ' ')"
-cd /repo || exit 2
+mkdir -p /tmp/tryseed-verif; cp /verif/known_findings.txt /tmp/tryseed-verif/; cd /repo || exit 2
 git diff --quiet || { echo "/repo dirty"; exit 2; }
 git apply "$P" || { echo "patch does not apply"; exit 2; }
 for p in $PROPS; do
